@@ -21,10 +21,17 @@ def commonprefix(paths):
     split = [i.split() for i in paths]
     lo, hi = min(split), max(split)
 
+    def make(bits, directory):
+        prefix = cls.sep.join(bits)
+        if paths[0].root == Root.absolute and cls.sep not in prefix:
+            # The filesystem (or drive) root keeps its trailing separator.
+            prefix += cls.sep
+        return cls(prefix, paths[0].root, directory=directory)
+
     for i, bit in enumerate(lo):
         if bit != hi[i]:
-            return cls(cls.sep.join(lo[:i]), paths[0].root, directory=True)
-    return cls(cls.sep.join(lo), paths[0].root, directory=(lo != hi))
+            return make(lo[:i], True)
+    return make(lo, (lo != hi) or paths[0].directory)
 
 
 def uniquetrees(paths):
@@ -37,7 +44,8 @@ def uniquetrees(paths):
     if not paths:
         return []
 
-    paths = [(i, [i.root.value] + i.split()) for i in paths]
+    paths = [(i, [type(i.root).__name__, i.root.value] + i.split())
+             for i in paths]
     paths.sort(key=lambda i: i[1])
     piter = iter(paths)
 
